@@ -114,7 +114,7 @@ def judge_v3(op, g, sp, out, full):
     if g.get("q2", "1") != "1":
         out.add("C15", "repeating the queries on the same object gave different results")
     if "0" in g.get("vq", ""):
-        out.add("C14", "a lower-level view gives different results after the higher level was queried: vq=%s" % g.get("vq"))
+        out.add("C14", "a lower-level view gives different results after the higher level was queried, or a view taken before Decode is no longer the object the higher level decoded into: vq=%s" % g.get("vq"))
     if g.get("fq", "1") != "1":
         out.add("C09", "the metric fields read after the object was queried are not the ones read before (they no longer are what the vector says)")
     if full:
@@ -272,7 +272,7 @@ def judge_v2(op, g, sp, out, full):
     if g.get("q2", "1") != "1":
         out.add("C15", "repeating the queries on the same object gave different results")
     if "0" in g.get("vq", ""):
-        out.add("C14", "a lower-level view gives different results after the higher level was queried: vq=%s" % g.get("vq"))
+        out.add("C14", "a lower-level view gives different results after the higher level was queried, or a view taken before Decode is no longer the object the higher level decoded into: vq=%s" % g.get("vq"))
     if g.get("fq", "1") != "1":
         out.add("C09", "the metric fields read after the object was queried are not the ones read before (they no longer are what the vector says)")
     if full:
